@@ -385,7 +385,15 @@ def net_prim(ctx: Ctx):
                 if any(isinstance(y, ast.Call) and y is not node and any(z is sub for z in ast.walk(y)) for a in own for y in ast.walk(a)):
                     continue      # belongs to an inner call, reported there
                 try:
-                    ts = res.expr_types(sub.value, fn)
+                    src = sub.value
+                    if isinstance(src, ast.Name) and not fn.is_lambda:
+                        # a local assigned several times (response = await read(..); response = response.response_data()):
+                        # the assignment that reaches this use decides, not the union of all of them
+                        from ..astutil import reaching_assignment
+                        d = reaching_assignment(fn.node, src.id, sub)
+                        if d is not None:
+                            src = d.value if isinstance(d, ast.Await) else d
+                    ts = res.expr_types(src, fn)
                 except Exception:
                     ts = []
                 if ts and all(t[0] == "inst" and isinstance(t[1], ClassInfo) and prog.find_method(t[1], "__getitem__") is None
